@@ -35,7 +35,8 @@ def corpus(r):
 
 def run(r):
     r.rule = RULE
-    r.level = "partial"
+    r.level = "proof"
+    r.extra_cov["scope"] = "partial (see claim text)"
     r.assumptions = [
         "Document -> objects translation is not modelled; each written file is validated (C03) and decoded by the library's own reader",
         "the reader's f32 operands are converted to millionths by the harness (rounding error 0.5 millionth, inside the slack)",
